@@ -381,3 +381,24 @@ Example C06_ex_truncated :
   parse_bytes (CStruct [CRenamed [x61] (CFormat Big FH); CRenamed [x62] (CPadded (XConst (VInt 4)) CVarInt x00)]) [] [x00; x01; x81; x00; x00] = Err EStream (Some [[x62]]).
 Proof. split; vm_compute; reflexivity. Qed.
 ''')
+
+PROPS['C18'] = dict(
+    title='C18 - errors name the member in which parsing or building failed',
+    requires=['ConInd'],
+    theorems=[
+        ('PathFacts', 'parse_path_extends', 'For EVERY construct of the model (induction over all 59 classes, all loops): an error raised while parsing carries a path that extends the path the construct was entered with - no wrapper drops, reorders or invents enclosing names.'),
+        ('PathFacts', 'sizeof_path_extends', 'The same for sizeof, every construct.'),
+        ('PathFacts', 'renamed_appends_name', 'Renamed appends exactly its own name, for parse, build and sizeof.'),
+        ('PathFacts', 'member_error_names_member', 'An error raised anywhere inside member n names n right after the enclosing path.'),
+        ('PathFacts', 'entry_points_start_empty', 'The public entry points start from the empty member path (the operation marker is the caller\'s).'),
+        ('PathFacts', 'eval_np', 'Errors of context expressions (foreign exceptions) carry no path.'),
+    ],
+    examples='''
+Example C18_ex_nested :
+  parse_bytes (CStruct [CRenamed [x61] (CFormat Big FB);
+                        CRenamed [x64] (CStruct [CRenamed [x64] (CArray (XConst (VInt 2)) (CStruct [CRenamed [x6c] (CFormat Big FH)]))])]) []
+              [x01; x00; x02; x00] = Err EStream (Some [[x64]; [x64]; [x6c]]) /\\
+  sizeof (CStruct [CRenamed [x68] (CStruct [CRenamed [x65] (CIfThenElse (XItem (XRoot RThis) (KName [x6b])) (CFormat Big FB) (CFormat Big FH))])]) (top_ctx [] MSize) []
+    = Err ESizeof (Some [[x68]; [x65]]).
+Proof. split; vm_compute; reflexivity. Qed.
+''')
